@@ -2034,9 +2034,8 @@ func marshalTuple(info TypeInfo, value interface{}) ([]byte, error) {
 				return nil, err
 			}
 
-			n := len(data)
-			buf = appendInt(buf, int32(n))
-			buf = append(buf, data...)
+			// a nil result is CQL null (e.g. a typed nil pointer)
+			buf = appendBytes(buf, data)
 		}
 
 		return buf, nil
@@ -2066,9 +2065,7 @@ func marshalTuple(info TypeInfo, value interface{}) ([]byte, error) {
 				return nil, err
 			}
 
-			n := len(data)
-			buf = appendInt(buf, int32(n))
-			buf = append(buf, data...)
+			buf = appendBytes(buf, data)
 		}
 
 		return buf, nil
@@ -2092,9 +2089,7 @@ func marshalTuple(info TypeInfo, value interface{}) ([]byte, error) {
 				return nil, err
 			}
 
-			n := len(data)
-			buf = appendInt(buf, int32(n))
-			buf = append(buf, data...)
+			buf = appendBytes(buf, data)
 		}
 
 		return buf, nil
